@@ -22,7 +22,8 @@
 From Coq Require Import List Arith Bool.
 From WV Require Import Gen.GenChanKnobs.
 From WV Require Import Model.ChanFault Proof.ChanFaultSpec Proof.ChanFaultWorkers Proof.ChanFaultListener
-                       Proof.ChanFaultOnce Proof.ChanFaultWitness Proof.ChanFaultIso.
+                       Proof.ChanFaultOnce Proof.ChanFaultWitness Proof.ChanFaultIso
+                       Proof.ChanFaultIso2Proj Proof.ChanFaultIso2.
 Import ListNotations.
 
 (* the configurations that have what the source has now *)
@@ -95,10 +96,8 @@ Theorem C13_listener_refuted_old : exists g sched, init_guarded g = false /\ ~ l
 Proof. exists wcfg, w_listener. split; [reflexivity|exact (proj2 listener_refuted_w)]. Qed.
 Print Assumptions C13_listener_refuted_old.
 
-(* ---- isolation: the unwinding conditions of non-interference between the two connections.
-   What is NOT mechanised: their composition into one statement about two whole runs (the I/O thread
-   serves both connections in turn, so which scheduled choice executes which connection's instruction
-   depends on the state; the step-level facts below are the ingredients of that induction). ---- *)
+(* ---- isolation: the unwinding conditions of non-interference between the two connections (step level);
+   their composition into one statement about whole runs is C13_isolation below ---- *)
 
 (* a step that executes an instruction of connection c -- whatever the environment answers: a fault,
    EOF, anything -- changes nothing of the other connection d (record, worker), nothing of the listener
@@ -141,6 +140,57 @@ Theorem C13_isolation_poll : forall g s1 s2 c, getc s1 c = getc s2 c ->
   mem_fd (FC c) (asked_w s1) = mem_fd (FC c) (asked_w s2).
 Proof. exact poll_two_run. Qed.
 Print Assumptions C13_isolation_poll.
+
+(* ---- isolation at the level of whole runs (Proof/ChanFaultIso2*.v): existential schedule matching by a
+   stuttering simulation.  For every schedule of the two-connection system -- every interleaving, every length,
+   every answer of the environment to every socket call of a (any errno, EOF, partial sends ...) -- there is a
+   schedule of the same system in which connection a never appears (no label of a in the whole trace, its record
+   the initial one, its worker never ran) and which the observer of connection b cannot tell from the first:
+   [view b] keeps every label of b (environment answers, WIRE BYTES, handle_close, socket.close, ...) and every
+   label of the loop, the listener and the trigger, and hides the labels of a and [LCaught IO _]; the final
+   record of b, b's worker and the listener / trigger / loop flags are equal too.  Needs both repairs (with the
+   old knob values it is false: C13_listener_refuted_old, C13_loop_refuted_old). ---- *)
+Theorem C13_isolation : forall g a b sched1,
+  as_source g -> a <> b ->
+  exists sched2,
+    (labels_of a (trace g sched2) = [] /\ getc (run g sched2) a = chan0 /\ getth (run g sched2) (W a) = th0 []) /\
+    view b (trace g sched1) = view b (trace g sched2) /\
+    getc (run g sched1) b = getc (run g sched2) b /\
+    getth (run g sched1) (W b) = getth (run g sched2) (W b) /\
+    srv5 (run g sched1) = srv5 (run g sched2).
+Proof. intros g a b sched1 [H1 H2] Hab. apply isolation_trace; [exact Hab|rewrite H1; reflexivity|rewrite H2; reflexivity]. Qed.
+Print Assumptions C13_isolation.
+
+(* the same for any configuration with the two repaired knob values *)
+Theorem C13_isolation_repaired : forall g a b sched1,
+  a <> b -> wc_close g = false -> init_guarded g = true ->
+  exists sched2,
+    (labels_of a (trace g sched2) = [] /\ getc (run g sched2) a = chan0 /\ getth (run g sched2) (W a) = th0 []) /\
+    view b (trace g sched1) = view b (trace g sched2) /\
+    getc (run g sched1) b = getc (run g sched2) b /\
+    getth (run g sched1) (W b) = getth (run g sched2) (W b) /\
+    srv5 (run g sched1) = srv5 (run g sched2).
+Proof. exact isolation_trace. Qed.
+Print Assumptions C13_isolation_repaired.
+
+(* "the wire log of connection b is independent of the faults injected on connection a": the sequence of byte
+   counts the kernel accepted on b in ANY run is the sequence of some run without a, and so is their total *)
+Theorem C13_isolation_wire : forall g a b sched1,
+  a <> b -> wc_close g = false -> init_guarded g = true ->
+  exists sched2,
+    labels_of a (trace g sched2) = [] /\
+    wire_log b (trace g sched1) = wire_log b (trace g sched2) /\
+    wire (getc (run g sched1) b) = wire (getc (run g sched2) b).
+Proof. exact isolation_wire. Qed.
+Print Assumptions C13_isolation_wire.
+
+(* what b can observe: the same set of views over all runs and over the runs without a *)
+Theorem C13_isolation_views : forall g a b v,
+  a <> b -> wc_close g = false -> init_guarded g = true ->
+  ((exists sched, view b (trace g sched) = v) <->
+   (exists sched, absent g a sched /\ view b (trace g sched) = v)).
+Proof. exact isolation_views. Qed.
+Print Assumptions C13_isolation_views.
 
 (* the two finding classes are independent: the F17 witness has no worker-side send_continue,
    the F18 witnesses have no set-up fault *)
